@@ -97,12 +97,42 @@ pub fn gen(run: &mut Run, out_dir: &str) {
     let mut k = 0;
     let mut attempts = 0;
     let header = "import CCV.Model.Know\nset_option maxRecDepth 1000000\nnamespace CCV.Generated.C02\nopen CCV.Know\n\n";
-    while k < n_graphs && attempts < n_graphs * 20 {
+    // the first graphs of the corpus are directed: one of each protocol family (so that every
+    // sub-protocol's Send pattern is in the kernel-checked part), then the random mix
+    let directed: [&str; 8] = ["truncate", "truncate-general", "conversion", "compare", "sort", "join", "bilinear", "mixed"];
+    let mut dir_pos = 0usize;
+    let mut dir_tries = 0usize;
+    while k < n_graphs && attempts < n_graphs * 20 + 400 {
         attempts += 1;
-        let fam = match catch(|| gen_family(&mut rng, false)) {
+        let want: Option<&str> = if dir_pos < directed.len() { Some(directed[dir_pos]) } else { None };
+        if want.is_some() {
+            dir_tries += 1;
+            if dir_tries > 60 {
+                run.count(&format!("gen:directed-not-found:{}", directed[dir_pos]));
+                dir_pos += 1;
+                dir_tries = 0;
+                continue;
+            }
+        }
+        let fam = match catch(|| match want {
+            Some("truncate") | Some("truncate-general") => truncate_family(&mut rng),
+            Some("conversion") => conversion_family(&mut rng),
+            Some("compare") => compare_family(&mut rng),
+            Some("sort") => sort_family(&mut rng),
+            Some("join") => join_family(&mut rng, &[ciphercore_base::graphs::JoinType::Inner, ciphercore_base::graphs::JoinType::Left]),
+            Some("bilinear") => bilinear_family(&mut rng),
+            Some("mixed") => tensor_family(&mut rng, 5),
+            _ => gen_family(&mut rng, false),
+        }) {
             Ok(Ok(f)) => f,
             _ => continue,
         };
+        match want {
+            Some("truncate") if !fam.descr.starts_with("2^k") => continue,
+            Some("truncate-general") if !fam.descr.starts_with("general") => continue,
+            Some("mixed") if !fam.ops.iter().any(|o| o == "MixedMultiply") => continue,
+            _ => {}
+        }
         let ins: Vec<IOStatus> = fam.in_types.iter().map(|_| gen_status(&mut rng)).collect();
         let outs = gen_outputs(&mut rng);
         let mode = rng.below(3) as u8;
@@ -137,6 +167,11 @@ pub fn gen(run: &mut Run, out_dir: &str) {
             "says": format!("holder analysis accepts the compiled graph of {} [{}] {} ({} nodes, {} sends)", fam.name, fam.descr, cfg, ex.n_nodes, ex.n_sends)}));
         run.count(&format!("gen:family:{}", fam.name));
         run.count_n("gen:nodes", ex.n_nodes as u64);
+        if want.is_some() {
+            run.count(&format!("gen:directed:{}", directed[dir_pos]));
+            dir_pos += 1;
+            dir_tries = 0;
+        }
         k += 1;
         in_cur += 1;
         if in_cur == chunk {
